@@ -2,6 +2,8 @@
    (harness/overlay/blockchain/v0/verif_c13_*_test.go), the property monitors evaluated on the
    implementation's own answers, and the comparison of the model with the implementation.
    Depends on Model.v (and on C07's Model/Exec for commits and symbolic signatures) only.
+   Heights in the terms are real block heights (a chain with InitialHeight ih starts at ih);
+   block ids 1..L number the canonical blocks by position.
 
    Numbering shared with the harness: key k = validator key number k; the address of key k is
    k+1 (0 = empty address, >= 1000 = an address owned by nobody); peers are 1, 2, ...; block
@@ -70,7 +72,8 @@ Inductive case :=
    start, block sync against scripted peers, then the blockchain reactor's own call of the real
    consensus Reactor.SwitchToConsensus *)
 | CHand (vals : list (Z * Z * Z)) (chain ih : Z)
-        (h0 h1 : Z)                (* State.LastBlockHeight at node start / of the state handed over *)
+        (h0 h1 : Z)                (* State.LastBlockHeight at node start / of the state the node saved
+                                      last (the top of its block store) *)
         (seen0 seen1 : option ((Z * Z * Z) * (Z * Z * Z * Z) * list slott))
         (* the seen commits stored for h0 and h1 (cm, base, slots as in CStep); None when the height
            is 0 or the harness does not know how the stored commit was made *)
@@ -79,10 +82,12 @@ Inductive case :=
            stored during the sync is the canonical one and its stored seen commit has one slot per
            validator, every non-absent slot signed by the positional validator's key over the vote
            the slot stands for, and more than 2/3 for the block *)
-        (obs : N * N * Z * N * bool * N)
+        (obs : N * N * Z * Z * N * bool * N)
         (* NewState at node start (0 ok, 1 panic); SwitchToConsensus (0 returned, 1 panicked, 2 never
-           called); RoundState.Height; LastCommit class (as in CStep); consensus state running and
-           WaitSync() = false afterwards; consensus.NewState on the result (0 ok, 1 panic, 2 not run) *)
+           called); LastBlockHeight of the state the blockchain reactor passed to it (-1 = no call);
+           RoundState.Height; LastCommit class (as in CStep, against the seen commit of the top
+           block of the store); consensus state running and WaitSync() = false afterwards;
+           consensus.NewState on the result (0 ok, 1 panic, 2 not run) *)
 | CPool (start : Z) (ops : list pop) (snap : psnap).
 
 (* ------------------------------------------------------------------ helpers *)
@@ -244,8 +249,8 @@ Definition mk_commit (d : cdescr) : commit isig :=
   {| c_height := ch; c_round := cr; c_bid := cb; c_sigs := map (mk_cs base) sigs |}.
 
 Definition check_hand (vals : list (Z * Z * Z)) (chain ih h0 h1 : Z) (seen0 seen1 : option cdescr)
-           (verified : bool) (obs : N * N * Z * N * bool * N) : list verdict :=
-  let '(start, sres, sh, lcc, running, ho) := obs in
+           (verified : bool) (obs : N * N * Z * Z * N * bool * N) : list verdict :=
+  let '(start, sres, hs, sh, lcc, running, ho) := obs in
   let vs := map mk_val vals in
   let failed := (start =? 1)%N || (sres =? 1)%N || (ho =? 1)%N in
   let known :=
@@ -283,9 +288,9 @@ Definition check_hand (vals : list (Z * Z * Z)) (chain ih h0 h1 : Z) (seen0 seen
     viol verified 1;
     (* clause 5: the hand-over failed although every stored block and commit verified *)
     (if failed then (if known then V_known 31 else V_violation 5) else V_ok);
-    (* clause 41: consensus runs at the height after the last stored block (InitialHeight when
-       nothing was ever stored) *)
-    viol (negb (sres =? 0)%N || ((sh =? expected) && running)) 41;
+    (* clause 41: the state handed over is the last saved one, and consensus runs at the height
+       after the last stored block (InitialHeight when nothing was ever stored) *)
+    viol (negb (sres =? 0)%N || ((hs =? h1) && (sh =? expected) && running)) 41;
     (* clause 42: its LastCommit is the stored seen commit of that block (nil before the first) *)
     viol (negb (sres =? 0)%N || (if h1 =? 0 then (lcc =? 0)%N else (lcc =? 1)%N)) 42;
     mism (negb have || (m_sres =? sres)%N) 19;
